@@ -1,5 +1,5 @@
 From Coq Require Import ZifyBool.
-From NPS Require Import ListAux PySlice NumpySem Scatter BuildIdx SliceAP XorBroadcast RLE RLEProof RLEOps CanonProof BinaryProof StartEnd GetSlice StepProof RLE2d RL2Col RL2Range.
+From NPS Require Import ListAux PySlice NumpySem Scatter BuildIdx SliceAP XorBroadcast RLE RLEProof RLEOps CanonProof BinaryProof StartEnd GetSlice StepProof StepNeg ReverseProof RLE2d RL2Col RL2Range.
 Open Scope Z_scope.
 
 (* C17: column ranges a:b:k (k >= 1) inside the rows of a ragged run-length array: every row decodes to every k-th element of row[a:b].
@@ -99,6 +99,109 @@ Proof.
   apply IH. intros q Hq. apply Hrow. now right.
 Qed.
 Print Assumptions rl2_col_range_pos_partial.
+
+(* ---------- negative steps: rl[:, a:b:-k] with 0 <= b < a < len(row) ---------- *)
+(* the cut for a negative step is the positive cut of the window (b, a] = [b+1, a+1) *)
+Lemma col_range_row_neg ev vs a b k : 1 <= k -> strictly_increasing (0 :: ev) -> length ev = length vs -> 0 <= b < a -> a < last (0 :: ev) 0 ->
+  col_range_row (Some a) (Some b) (- k) (0 :: ev) vs
+  = Some (let S := start_to_end Z (0 :: ev, vs) (b + 1) (a + 1) in step_subset_row (- k) (fst S) (snd S)).
+Proof.
+  intros Hk Hs Hlen Hab Hb. unfold col_range_row. cbv zeta.
+  replace (- k <? 0) with true by lia. cbv iota. cbn [option_map].
+  set (L := last (0 :: ev) 0) in *.
+  assert (Eb : (if b >=? 0 then Z.min L b else Z.max 0 (L + b)) = b) by (destruct (b >=? 0) eqn:?; lia).
+  assert (Ea : (if a >=? 0 then Z.min L a else Z.max 0 (L + a)) = a) by (destruct (a >=? 0) eqn:?; lia).
+  pattern (if b >=? 0 then Z.min L b else Z.max 0 (L + b)). rewrite Eb. cbv beta.
+  pattern (if a >=? 0 then Z.min L a else Z.max 0 (L + a)). rewrite Ea. cbv beta.
+  rewrite (find_run_stop ev 0 (a + 1) Hs) by lia. rewrite (find_run_start ev 0 (b + 1) Hs) by lia.
+  cbn [orb]. unfold cut_row. cbn [option_map].
+  set (E := 0 :: ev) in *. set (si := ssr E (b + 1) - 1). set (ei := ssl E (a + 1)).
+  assert (Hev : ev <> []) by (intros ->; unfold L, E in Hb; cbn in Hb; lia).
+  assert (Hsi0 : 0 <= si) by (unfold si, E; rewrite ssr_cons; pose proof (ssr_nonneg ev (b + 1)); replace (0 <=? b + 1) with true by lia; lia).
+  assert (Hsiei : si + 1 <= ei) by (unfold si, ei; pose proof (ssr_le_ssl E (b + 1) (a + 1) ltac:(lia)); lia).
+  assert (Heilen : ei <= zlen ev).
+  { unfold ei, E. rewrite ssl_cons. replace (0 <? a + 1) with true by lia.
+    assert (Hin : In (last ev 0) ev) by (apply last_In_ne; exact Hev).
+    assert (Hl : L = last ev 0) by (unfold L, E; destruct ev; [congruence|reflexivity]).
+    pose proof (ssl_lt_len ev (a + 1) (last ev 0) Hin ltac:(lia)). lia. }
+  assert (HzE : zlen E = zlen ev + 1) by (unfold E, zlen; cbn [length]; lia).
+  assert (Hzv : zlen vs = zlen ev) by (unfold zlen; lia).
+  replace (ei - 1 + 2) with (ei + 1) by lia. replace (ei - 1 + 1) with ei by lia.
+  rewrite (Z.max_r (si + 1) (ei + 1)) by lia. rewrite (Z.max_r si ei) by lia.
+  replace (si >=? ei + 1) with false by lia.
+  rewrite (win_is_slice E si (ei + 1)) by lia. rewrite (win_is_slice vs si ei) by lia.
+  cbn [fst snd].
+  assert (HX : (2 <= length (zslice_l E si (ei + 1)))%nat).
+  { pose proof (zslice_l_length E si (ei + 1) ltac:(lia) ltac:(lia) ltac:(lia)) as Hlx. unfold zlen in Hlx. lia. }
+  rewrite (rebase_cut _ (b + 1) (a + 1) HX).
+  unfold start_to_end. cbn [fst snd]. fold si ei. cbv zeta.
+  destruct (step_subset_row (- k) _ _) as [i v]. reflexivity.
+Qed.
+
+(* _step_subset on one row, negative step: mirror the row, then every k-th element *)
+Lemma step_subset_row_neg_decode (k : Z) (ls vs : list Z) : 1 <= k -> canon Z ls vs -> ls <> [] ->
+  decode Z (step_subset_row (- k) (evs ls) vs) = map (fun q => nth (Z.to_nat (q * k)) (rev (spec_broadcast Z vs ls)) 0) (ap 0 (cdiv k (zsum ls)) 1).
+Proof.
+  intros Hk Hc Hne.
+  assert (E : step_subset_row (- k) (evs ls) vs = step_subset_row k (evs (rev ls)) (rev vs)).
+  { unfold step_subset_row. replace (- k <? 0) with true by lia. replace (k <? 0) with false by lia. replace (Z.abs (- k)) with (Z.abs k) by lia.
+    assert (Hlast : last (evs ls) 0 = zsum ls) by (unfold evs; apply last_last). rewrite Hlast, (mirror_evs ls Hne). reflexivity. }
+  rewrite E.
+  assert (Hc' : canon Z (rev ls) (rev vs)) by (destruct Hc as [Hl Hlen]; split; [now apply Forall_rev|now rewrite !rev_length]).
+  assert (Hne' : rev ls <> []) by (destruct ls; [congruence|cbn; destruct (rev ls); discriminate]).
+  rewrite (step_subset_row_decode k (rev ls) (rev vs) Hk Hc' Hne'), zsum_rev. apply map_ext. intros q. unfold dense. f_equal.
+  destruct Hc as [_ Hlen]. now apply spec_broadcast_rev.
+Qed.
+
+Theorem rl2_col_range_neg_inside (rows : list (list Z * list Z)) (a b k : Z) : 0 <= b < a -> 1 <= k ->
+  Forall (fun p => canon Z (fst p) (snd p) /\ a < zsum (fst p)) rows ->
+  exists y, rl2_col_range (of_runs rows) {| sl_start := Some a ; sl_stop := Some b ; sl_step := Some (- k) |} = Ok y /\
+            rl2_decode y = map (fun d => let w := rev (ztake (a - b) (zdrop (b + 1) d)) in map (fun q => nth (Z.to_nat (q * k)) w 0) (ap 0 (cdiv k (a - b)) 1))
+                               (rl2_decode (of_runs rows)).
+Proof.
+  intros Hab Hk H. unfold rl2_col_range, step_of. cbn [sl_step sl_start sl_stop]. replace (- k =? 0) with false by lia.
+  assert (Hee : early_empty (Some a) (Some b) (- k) = false) by (unfold early_empty; replace (- k <? 0) with true by lia; lia).
+  rewrite Hee. cbv zeta.
+  assert (Hrow : forall p, In p rows -> exists iv, col_range_row (Some a) (Some b) (- k) (evs (fst p)) (snd p) = Some iv /\
+            decode Z iv = (let w := rev (ztake (a - b) (zdrop (b + 1) (decode Z (evs (fst p), snd p)))) in map (fun q => nth (Z.to_nat (q * k)) w 0) (ap 0 (cdiv k (a - b)) 1))).
+  { intros [ls vs] Hp. rewrite Forall_forall in H. destruct (H _ Hp) as ([Hl Hlen] & Hb). cbn [fst snd] in *.
+    assert (Hne : ls <> []) by (intros ->; cbn in Hb; lia).
+    destruct (evs_cons ls Hne) as (ev & Eev & Hlev). rewrite Eev.
+    assert (Hsi : strictly_increasing (0 :: ev)).
+    { rewrite <- Eev. unfold evs, excl_prefix. replace (zsum ls) with (0 + zsum ls) by lia. apply (si_evs_gen Z 0 Z.eqb (fun x y Hxy => proj1 (Z.eqb_eq x y) Hxy)). exact Hl. }
+    assert (Hlast : last (0 :: ev) 0 = zsum ls) by (rewrite <- Eev; unfold evs; apply last_last).
+    rewrite (col_range_row_neg ev vs a b k Hk Hsi ltac:(lia) Hab ltac:(lia)). cbv zeta.
+    pose proof (start_to_end_decode Z ev vs 0 (b + 1) (a + 1) ltac:(lia) Hsi ltac:(lia) ltac:(lia) ltac:(lia)) as Hd.
+    pose proof (start_to_end_shape Z ev vs 0 (b + 1) (a + 1) ltac:(lia) Hsi ltac:(lia) ltac:(lia) ltac:(lia)) as Hsh.
+    destruct (shape_runs Z 0 Z.eqb (fun x y Hxy => proj1 (Z.eqb_eq x y) Hxy) _ _ Hsh) as (ls' & E1 & Hc' & Hz' & Hne').
+    destruct (start_to_end Z (0 :: ev, vs) (b + 1) (a + 1)) as [se sv] eqn:Est. cbn [fst snd] in *. subst se.
+    eexists. split; [reflexivity|].
+    rewrite (step_subset_row_neg_decode k ls' sv Hk Hc' Hne'). rewrite Hz'. replace (a + 1 - (b + 1)) with (a - b) by lia.
+    apply map_ext. intros q. f_equal. f_equal.
+    replace (b + 1 - 0) with (b + 1) in Hd by lia. replace (a + 1 - (b + 1)) with (a - b) in Hd by lia. rewrite <- Hd. symmetry. apply (decode_evs Z). }
+  unfold of_runs. cbn [r_idx r_val r_len]. rewrite (map2_maps (col_range_row (Some a) (Some b) (- k)) (fun p => evs (fst p)) snd rows).
+  set (F := fun p : list Z * list Z => col_range_row (Some a) (Some b) (- k) (evs (fst p)) (snd p)) in *.
+  assert (Hall : forallb (fun o : option (list Z * list Z) => match o with Some _ => true | None => false end) (map F rows) = true).
+  { apply forallb_forall. intros o Ho. apply in_map_iff in Ho. destruct Ho as (p & <- & Hp). destruct (Hrow p Hp) as (iv & E & _). unfold F. now rewrite E. }
+  rewrite Hall. eexists. split; [reflexivity|].
+  set (rs := flat_map (fun o : option (list Z * list Z) => match o with Some p => [p] | None => [] end) (map F rows)).
+  assert (EL : rl2_decode {| r_idx := map fst rs ; r_val := map snd rs ; r_len := None |} = map (decode Z) rs).
+  { unfold rl2_decode, rl2_rows. cbn [r_idx r_val r_len]. rewrite (map2_maps _ fst snd rs), map_map. apply map_ext. intros [i v]. reflexivity. }
+  assert (ER : rl2_decode {| r_idx := map (fun p : list Z * list Z => evs (fst p)) rows ; r_val := map snd rows ; r_len := None |}
+               = map (fun p => decode Z (evs (fst p), snd p)) rows).
+  { unfold rl2_decode, rl2_rows. cbn [r_idx r_val r_len]. rewrite (map2_maps _ (fun p : list Z * list Z => evs (fst p)) snd rows), map_map. apply map_ext. intros p. reflexivity. }
+  rewrite EL, ER, map_map. unfold rs. clear EL ER rs Hall H.
+  induction rows as [|p rows IH]; [reflexivity|].
+  cbn [map flat_map]. destruct (Hrow p (or_introl eq_refl)) as (iv & E & Ed). unfold F at 1. rewrite E. cbn [app map]. rewrite Ed. f_equal.
+  apply IH. intros q Hq. apply Hrow. now right.
+Qed.
+Print Assumptions rl2_col_range_neg_inside.
+
+Example col_range_neg_example :
+  let rows := [([2; 3], [5; 7]); ([4; 1], [1; 2]); ([1; 1; 3], [1; 2; 3])] in
+  Forall (fun p => canon Z (fst p) (snd p) /\ 4 < zsum (fst p)) rows /\
+  rmap rl2_decode (rl2_col_range (of_runs rows) {| sl_start := Some 4 ; sl_stop := Some 0 ; sl_step := Some (-2) |}) = Ok [[7; 7]; [2; 1]; [3; 3]].
+Proof. split; [repeat constructor; cbn; lia|reflexivity]. Qed.
 
 Example col_range_step_example :
   let rows := [([2; 3], [5; 7]); ([4; 1], [1; 2]); ([1; 1; 3], [1; 2; 3])] in
